@@ -220,6 +220,23 @@ def run(ctx):
                 "(buffer reached: %s, reordering combinators: %s): delete-then-insert of one triple commits as a delete, so only part "
                 "of the transaction's writes survive" % (from_buffer, sorted(reord)), where=ctx_fn.loc())
 
+    # ---- R7 the session's direct mutators create versions tagged with the session's own transaction
+    for n, acc in (("create_node", "create_node_versioned"), ("create_node_with_props", "create_node_with_props_versioned"),
+                   ("create_edge", "create_edge_versioned")):
+        f = P.fn("Session::" + n)
+        fx = FlowCx(P, f)
+        ok = False
+        for bi, t in f.calls():
+            if callee_name(t).endswith("LpgStore::" + acc):
+                tg = set()
+                for a in t["args"][-2:]:
+                    tg |= fx.tags(a)
+                ok = "call:Session::get_transaction_context" in tg
+        ctx.ob("R7", "Session::%s#tx-tagged" % n, ok,
+               what="Session::%s does not create its version through LpgStore::%s with the (epoch, tx id) of "
+                    "get_transaction_context: the write is not tagged with the transaction and rollback cannot find it" % (n, acc),
+               where=f.loc())
+
     # ---- R4 dropped session
     drop = None
     for f in P.fns.values():
